@@ -343,6 +343,54 @@ def check_c03(tier: str) -> int:
                                  {"kind": "roundtrip-queued-batch", "gen": gen, "messages": [repr(m)[:300] for m in batch],
                                   "written": data.hex()[:600], "failure": "accepted while the link was down, written after the reconnection: " + bad})
                     break
+            # short-lived messages: built, sent and dropped one after another (what an application does all day), so
+            # that a later message may live at the address of an earlier one; and one message object that is sent,
+            # updated in place (its names table grows) and sent again.  Each frame must be its own message's as it is
+            # at the time of the send.
+            import copy
+            for i in range(150 if tier == "quick" else 3000):
+                if len(pool) < 4:
+                    break
+                ck.count()
+                dist[f"at{gen}_short_lived_messages"] += 1
+                w = copy.deepcopy(rng.choice(pool))
+                bad, frame = frame_monitor(lb, w, 0x90 if w.message_id == 0x1F else 0x80)
+                rep = repr(w)[:300]
+                del w
+                if bad:
+                    ck.violation("round trip fails on the implementation",
+                                 {"kind": "roundtrip-short-lived", "gen": gen, "message": rep, "send_number": i + 1,
+                                  "failure": "messages built, sent and dropped one after another through one registry: " + bad})
+                    break
+            tables = []
+            for m in pool:
+                inner = getattr(m, "sub_message", m)
+                for f in dataclasses.fields(inner) if dataclasses.is_dataclass(inner) else []:
+                    v = getattr(inner, f.name)
+                    if isinstance(v, dict) and v and all(isinstance(k, int) for k in v) and all(isinstance(x, str) for x in v.values()):
+                        tables.append((m, f.name))
+            for m, fname in tables[:6 if tier == "quick" else 40]:
+                w = copy.deepcopy(m)
+                table = getattr(getattr(w, "sub_message", w), fname)
+                free = [k for k in range(16) if k not in table]
+                steps = []
+                for rnd in range(3):
+                    ck.count()
+                    dist[f"at{gen}_updated_in_place"] += 1
+                    bad, frame = frame_monitor(lb, w, 0x90 if w.message_id == 0x1F else 0x80)
+                    if bad:
+                        ck.violation("round trip fails on the implementation",
+                                     {"kind": "roundtrip-updated-in-place", "gen": gen, "message": repr(w)[:300], "updates": steps,
+                                      "failure": f"the same message object sent again after its {fname} table was updated in place: " + bad})
+                        break
+                    if free:
+                        k = free.pop(0)
+                        table[k] = "N%d" % k
+                        steps.append(f"{fname}[{k}] = 'N{k}'")
+                    else:
+                        k = sorted(table)[0]
+                        del table[k]
+                        steps.append(f"del {fname}[{k}]")
         finally:
             lb.close()
     float_tie(ck, dist)
